@@ -677,7 +677,9 @@ class LimitRuleRun(Harness):
         return out
 
     def run(self, g, case):
-        markets = {f"M{i}": {"class": "Market", "tickSize": 1, "marketPrice": 300 + 100 * i} for i in range(2)}
+        # (the fundamental price differs from the market price: the band is centred on the market price of time 0)
+        markets = {f"M{i}": {"class": "Market", "tickSize": 1, "marketPrice": 300 + 100 * i,
+                             "fundamentalPrice": 360 + 100 * i} for i in range(2)}
         sessions = [rn.session(0, 1, True, True, maxNormalOrders=2), rn.session(1, case["n1"], True, True, maxNormalOrders=2)]
         sessions[0]["events"] = ["PROBE"]
         if case.get("rule_first"):
@@ -807,6 +809,8 @@ class HaltTiming(Harness):
         # one rule over two target markets: solver-chosen prices on the first at step 1 and on the second at step 2
         # (inside the first one's halt, if it fired), quotes at 300 on the first afterwards
         out.append({"L": 2, "layout": [[5, True]], "M": 2, "targets": ["M0", "M1"], "multi": True})
+        # the same with the roles exchanged: the observed market is the second target of the rule
+        out.append({"L": 2, "layout": [[5, True]], "M": 2, "targets": ["M1", "M0"], "multi": True, "observe": 1})
         # a halt cut short by the end of its session, then solver-chosen prices again in the next session (the halt
         # that was cut counts for the moving line)
         out.append({"L": 2, "layout": [[2, True], [3, True]], "M": 1, "second": True, "sparse": True})
@@ -846,6 +850,8 @@ class HaltTiming(Harness):
         if case.get("multi"):
             menu["price_by_time"] = {"1": "sym", "2": "sym", "default": 300}
             menu["market_by_time"] = {"1": 0, "2": 1, "3": 0, "4": 0}
+            if case.get("observe") == 1:
+                menu["market_by_time"] = {"1": 1, "2": 0, "3": 1, "4": 1}
         if case.get("sweep"):
             menu["per_agent"] = {"0": {"side": "B"}, "1": {"side": "S", "vol_fixed": 2}, "2": {"side": "B"}}
         if case.get("step0"):
@@ -868,7 +874,9 @@ class HaltTiming(Harness):
                 # read when the parties are notified = after the whole round, just before the rule looks:
                 # the market's price and "its time-0 price" (the value recorded for time 0 as it reads now)
                 m = sim.id2market[p.market_id]
-                state["at_fill"][id(p)] = (m.get_market_price(), m.get_market_price(0))
+                # "its price" after the fill is the price of that fill (C08: the market price follows the latest trade);
+                # taken from the fill record, not read back from the market
+                state["at_fill"][id(p)] = (p.price, m.get_market_price(0))
             if kind == "log-direct" and isinstance(p, (MarketStepBeginLog, MarketStepEndLog)):
                 state["obs"].append((type(p).__name__, p.market.market_id, p.market.get_time(), p.market.is_running,
                                      p.session))
@@ -884,7 +892,7 @@ class HaltTiming(Harness):
         rule.trigger_change_rate = r
         ctx.runner._run()
         # ---- expected halts, from the fills (ground truth: the logger's distinct fill records on the target)
-        tid = 0
+        tid = case.get("observe", 0)
         win, t = {}, 0
         for s in sim.sessions:
             for k in range(s.iteration_steps):
